@@ -281,7 +281,14 @@ fn candidates(h: &History, v: &Violation) -> Vec<History> {
                     }
                 }
             }
-            Step::Cli { exact, describe, split, .. } => {
+            Step::Cli { exact, describe, split, tty, .. } => {
+                if *tty {
+                    let mut c = h.clone();
+                    if let Step::Cli { tty, .. } = &mut c.steps[si] {
+                        *tty = false;
+                    }
+                    out.push(c);
+                }
                 if *split {
                     let mut c = h.clone();
                     if let Step::Cli { split, .. } = &mut c.steps[si] {
